@@ -247,6 +247,23 @@ def reachable(n, parent=None):
         for c in n.children:
             yield from reachable(c, n)
 
+# history: a rejected __call__ must not influence later checks (same or fresh checker)
+ck = LuceneCheck()
+for first in (T.SearchField('f', T.Word('a b')), T.OrOperation(T.Word('a'), T.Word('b c')), T.Group(T.Fuzzy(T.Phrase('"p"'), 1))):
+    ck(first); LuceneCheck(zeal=1)(first)
+    for later, want in ((T.Group(T.Word('a')), True), (T.FieldGroup(T.Word('a')), False), (T.Not(T.Word('a')), True)):
+        for c2 in (ck, LuceneCheck(), LuceneCheck(zeal=1)):
+            try:
+                if c2(later) is not want:
+                    problems.append('after checking %r, %r is %s' % (first, later, 'accepted' if not want else 'rejected'))
+            except Exception as e:
+                problems.append('after checking %r, check of %r raised %r' % (first, later, e))
+for deep in (T.SearchField('f', T.FieldGroup(T.FieldGroup(T.Word('a')))), T.SearchField('f', T.Boost(T.FieldGroup(T.Word('a')), 2)),
+             T.SearchField('f', T.FieldGroup(T.AndOperation(T.FieldGroup(T.Word('a')), T.Word('b')))),
+             T.AndOperation(T.Word('a'), T.Word('b'), T.Not(T.Boost(T.Group(T.Word('c d')), 2)))):
+    for zeal in (0, 1):
+        if LuceneCheck(zeal)(deep):
+            problems.append('ill-formed %r accepted' % deep)
 bad = [n for n, p in reachable(x) if ill(n, p)]
 if bad and LuceneCheck()(x):
     problems.append('ill-formed construct %r inside %r accepted' % (bad[0], x))
